@@ -1,3 +1,12 @@
+// Package glang reads the GooseLang notation that the goose translator prints
+// (the .v files) and runs definitions of it on a simulated machine whose
+// threads are verif/simrt tasks: one tape decides every interleaving, a run can
+// be guided along a recorded order of synchronisation events, and a vector-clock
+// detector reports unordered conflicting accesses to heap cells. See SPEC.md.
+//
+// It is not a Coq parser: what is outside the grammar of SPEC.md is refused
+// (Program.Refused), and an identifier that is neither a definition of the file
+// nor a primitive listed in SPEC.md ends a run with Outcome "unknown-primitive".
 package glang
 
 import "strings"
@@ -19,12 +28,12 @@ type Type = *TypeDesc
 
 type TypeDesc struct {
 	kind tyKind
-	Name string  // base: the printer's name (uint64T, slice.T, mapT, ...); struct/named: the identifier
+	Name string // base: the printer's name (uint64T, slice.T, mapT, ...); struct/named: the identifier
 	Elem []Type // slice.T / mapT / refT element, arrow components, product components
 
 	// filled by link
 	decl    *StructDecl // tyStruct
-	target  Type       // tyNamed resolved through Program.Types
+	target  Type        // tyNamed resolved through Program.Types
 	varIdx  int         // tyNamed bound by a (T:ty) binder: de Bruijn index, else -1
 	open    bool        // mentions a type variable: must be instantiated with the environment
 	unknown string      // a name that is neither in the file nor built in
@@ -125,6 +134,7 @@ type global struct {
 	cst  Expr
 	ty   Type
 	prim *builtin
+	note string // why the name is unknown, when it is
 }
 
 // tyLit is a type in argument position (NewSlice uint64T ..., zero_val (struct.t S)).
@@ -198,7 +208,7 @@ type structLit struct {
 	fields []fieldInit
 	line   int
 	// link
-	decl  *StructDecl
+	decl    *StructDecl
 	order   []int // for each descriptor field, index into fields or -1
 	err     string
 	noField bool // err is an unknown field (stuck) rather than an unknown descriptor
@@ -216,12 +226,6 @@ type forSlice struct {
 	t        Type
 	key, val string // "" = <>
 	s, body  Expr
-}
-
-type mapIter struct {
-	m        Expr
-	key, val string
-	body     Expr
 }
 
 // panicE is `Panic "msg"`.
